@@ -45,6 +45,7 @@ type Hook interface {
 	Yield(site string)
 	Lock(try func() bool, site string)
 	Unlocked(site string)
+	Blocked(site string)
 }
 
 type holder struct{ h Hook }
@@ -79,6 +80,49 @@ func Lock(try func() bool, site string) {
 func Unlocked(site string) {
 	if p := hook.Load(); p != nil {
 		p.h.Unlocked(site)
+	}
+}
+
+// Blocked parks the calling task because what it waits for (a value on a channel, room in one) is not there yet; it returns
+// when the scheduler lets the task try again. Without a scheduler it yields the processor.
+func Blocked(site string) {
+	if p := hook.Load(); p != nil {
+		p.h.Blocked(site)
+		return
+	}
+	runtime.Gosched()
+}
+
+// Recv is <-ch as a polling loop (the rewriter replaces receive expressions outside select statements): under the cooperative
+// scheduler a task must never block inside the Go runtime, where nobody could hand the baton on.
+func Recv[T any](ch <-chan T, site string) (v T, ok bool) {
+	Yield("sp " + site)
+	for {
+		select {
+		case v, ok = <-ch:
+			return v, ok
+		default:
+			Blocked(site)
+		}
+	}
+}
+
+// Recv1 is the single-value form of Recv.
+func Recv1[T any](ch <-chan T, site string) T {
+	v, _ := Recv(ch, site)
+	return v
+}
+
+// Send is ch <- v as a polling loop.
+func Send[T any](ch chan<- T, v T, site string) {
+	Yield("sp " + site)
+	for {
+		select {
+		case ch <- v:
+			return
+		default:
+			Blocked(site)
+		}
 	}
 }
 
@@ -170,6 +214,7 @@ type rewriter struct {
 	locks   int
 	yields  int
 	syncs   int
+	chans   int
 }
 
 // mutexMethod reports which sync.Mutex / sync.RWMutex method a call invokes ("" if none).
@@ -443,6 +488,54 @@ func (rw *rewriter) file(f *ast.File) {
 		}
 		return true
 	})
+	// channel receives / sends outside select statements become polling loops (simrt.Recv / Recv1 / Send)
+	inSelect := map[ast.Node]bool{}
+	ast.Inspect(f, func(n ast.Node) bool {
+		if cc, ok := n.(*ast.CommClause); ok && cc.Comm != nil {
+			ast.Inspect(cc.Comm, func(m ast.Node) bool {
+				switch m.(type) {
+				case *ast.UnaryExpr, *ast.SendStmt:
+					inSelect[m] = true
+				}
+				return true
+			})
+		}
+		return true
+	})
+	isChan := func(e ast.Expr) bool {
+		tv, ok := rw.pkg.TypesInfo.Types[e]
+		if !ok {
+			return false
+		}
+		_, isCh := tv.Type.Underlying().(*types.Chan)
+		return isCh
+	}
+	astutil.Apply(f, func(c *astutil.Cursor) bool {
+		switch x := c.Node().(type) {
+		case *ast.AssignStmt:
+			if len(x.Lhs) == 2 && len(x.Rhs) == 1 {
+				if u, ok := x.Rhs[0].(*ast.UnaryExpr); ok && u.Op == token.ARROW && !inSelect[u] && isChan(u.X) {
+					x.Rhs[0] = simrtCall("Recv", u.X, rw.site(u.Pos()))
+					inSelect[u] = true // handled
+					rw.chans++
+					rw.changed = true
+				}
+			}
+		case *ast.UnaryExpr:
+			if x.Op == token.ARROW && !inSelect[x] && isChan(x.X) {
+				c.Replace(simrtCall("Recv1", x.X, rw.site(x.Pos())))
+				rw.chans++
+				rw.changed = true
+			}
+		case *ast.SendStmt:
+			if !inSelect[x] && isChan(x.Chan) {
+				c.Replace(&ast.ExprStmt{X: simrtCall("Send", x.Chan, x.Value, rw.site(x.Pos()))})
+				rw.chans++
+				rw.changed = true
+			}
+		}
+		return true
+	}, nil)
 	// statement lists: lock / unlock calls
 	ast.Inspect(f, func(n ast.Node) bool {
 		switch b := n.(type) {
